@@ -121,7 +121,9 @@ def build(rnd, tier, flags):
     meta.update({"fixed": fixed, "cont": cont_used, "cont3": multi, "comment_in_hidden_cont": inter,
                  "labelled_fixed": lab_used and fixed, "omp": omp, "n_hidden": len(hidden)})
     case = {"full": "\n".join(full) + "\n", "sent": "\n".join(sent) + "\n", "minus": "\n".join(minus) + "\n",
-            "hidden": hidden, "plain_comments": plain, "std": std, "fixed": fixed, "meta": meta}
+            "hidden": hidden, "plain_comments": plain, "std": std, "fixed": fixed, "meta": meta,
+            # fixed-form sources are also read with the form set explicitly: non-strict ('fix') and strict ('f77')
+            "source_form": (r.pick([None, None, "fix", "f77"]) if fixed else None)}
     return case, progs.excluded_counts(g)
 
 
@@ -133,20 +135,35 @@ def evaluate(case):
     if not case["hidden"]:
         labels.append("nothing-hidden")
     std = case["std"]
-    o_full = guarded_parse(case["full"], std=std)
-    o_minus = guarded_parse(case["minus"], std=std)
+    sf = case.get("source_form")
+    if sf:
+        labels.append("explicit-" + sf)
+    import functools
+    gp = functools.partial(guarded_parse, source_form=sf) if sf else guarded_parse
+    o_full = gp(case["full"], std=std)
+    o_minus = gp(case["minus"], std=std)
     if o_full.kind != "tree" or o_minus.kind != "tree":
         return Result(True, None, False, labels, precondition_failed=True)
     mode = FortranStringReader(case["sent"]).format.mode
-    if (mode == "fix") != bool(case["fixed"]):
+    if not sf and (mode == "fix") != bool(case["fixed"]):
         return Result(True, None, False, labels, precondition_failed=True)
-    o_en = guarded_parse(case["sent"], std=std, include_omp_conditional_lines=True)
+    o_en = gp(case["sent"], std=std, include_omp_conditional_lines=True)
     if o_en.kind != "tree":
         return Result(False, "enabled:reject:%s" % o_en.kind, nontrivial, labels, {"error": o_en.text})
     d = tree_diff(o_full.tree, o_en.tree)
     if d:
         return Result(False, "enabled:tree:" + d[0], nontrivial, labels, {})
-    o_enk = guarded_parse(case["sent"], std=std, ignore_comments=False, include_omp_conditional_lines=True)
+    if sf == "f77":
+        # strict F77 mode does not deliver comment items at all (with either comment setting), so only the
+        # comment-free comparisons apply there
+        o_dis = gp(case["sent"], std=std)
+        if o_dis.kind != "tree":
+            return Result(False, "disabled:reject:%s" % o_dis.kind, nontrivial, labels, {"error": o_dis.text})
+        d = tree_diff(o_minus.tree, o_dis.tree)
+        if d:
+            return Result(False, "disabled:tree:" + d[0], nontrivial, labels, {})
+        return Result(True, None, nontrivial, labels, classes=class_names(o_en.tree))
+    o_enk = gp(case["sent"], std=std, ignore_comments=False, include_omp_conditional_lines=True)
     if o_enk.kind != "tree":
         return Result(False, "enabled-kept:reject:%s" % o_enk.kind, nontrivial, labels, {"error": o_enk.text})
     comm = [str(c).strip() for c in walk(o_enk.tree, F03.Comment) if str(c).strip()]
@@ -155,13 +172,13 @@ def evaluate(case):
         extra = [c for c in comm if c not in want_plain]
         return Result(False, "enabled-kept:comments-differ:%s" % ("hidden-line-left-as-comment" if extra else "comment-lost"),
                       nontrivial, labels, {"got": comm[:8], "expected": want_plain[:8]})
-    o_dis = guarded_parse(case["sent"], std=std)
+    o_dis = gp(case["sent"], std=std)
     if o_dis.kind != "tree":
         return Result(False, "disabled:reject:%s" % o_dis.kind, nontrivial, labels, {"error": o_dis.text})
     d = tree_diff(o_minus.tree, o_dis.tree)
     if d:
         return Result(False, "disabled:tree:" + d[0], nontrivial, labels, {})
-    o_disk = guarded_parse(case["sent"], std=std, ignore_comments=False)
+    o_disk = gp(case["sent"], std=std, ignore_comments=False)
     if o_disk.kind != "tree":
         return Result(False, "disabled-kept:reject:%s" % o_disk.kind, nontrivial, labels, {"error": o_disk.text})
     comm = [str(c).strip() for c in walk(o_disk.tree, F03.Comment) if str(c).strip()]
